@@ -88,6 +88,7 @@ Overlooked(c) ==
 Seen(c) == [n \in Names |-> IF n \in Overlooked(c) THEN Absent ELSE Eff[n]]
 
 PackedAncestor(n) == \E b \in Names : packed[b].k # "absent" /\ IsStrictPrefix(b, n)
+PackedConflict(n) == \E b \in Names : packed[b].k # "absent" /\ Collide(b, n)
 
 \* Directories after a call (transcribed from refs.py; where the contract demands something the
 \* implementation does not do -- writing a name at which an empty directory was left behind --
@@ -95,12 +96,14 @@ PackedAncestor(n) == \E b \in Names : packed[b].k # "absent" /\ IsStrictPrefix(b
 DirsAfter(c, res, tgt, nl) ==
     LET mk == dirs \cup Creatable(loose, tgt) IN
     CASE c.op \in {"Set", "SetIfEquals"} ->
+            \* (set_if_equals probes packed ANCESTORS before it creates directories; once it probes
+            \*  descendants too -- out/proposed_fixes/C16-2 -- this becomes PackedConflict(tgt))
             IF res = "Refused" /\ PackedAncestor(tgt) THEN dirs            \* refused before anything is created
             ELSE IF res = "True" /\ Content(Eff, tgt) # c.v THEN ClearAt(mk, tgt)
             ELSE mk                                                        \* compare failed / value already there / rename refused
       [] c.op = "AddIfNew" ->
             IF res \in {"False", "SymrefLoop"} THEN dirs                   \* decided before anything is created
-            ELSE IF res = "Refused" THEN (IF BlockedByFile(loose, tgt) \/ ~PackedAncestor(tgt) THEN mk ELSE dirs)
+            ELSE IF res = "Refused" THEN (IF PackedConflict(tgt) THEN dirs ELSE mk)
             ELSE ClearAt(mk, tgt)
       [] c.op \in {"Remove", "RemoveIfEquals"} ->
             IF BlockedByFile(loose, tgt) THEN mk                           \* the lock file cannot be created
